@@ -225,3 +225,74 @@ Proof.
       cbv zeta in RT. rewrite Ec in RT. apply RT; [reflexivity|exact Hbp| |exact HD].
       eapply Forall_impl; [|exact Hok]. intros a Ha. destruct a; exact Ha.
 Qed.
+
+(** *** the state-changing pseudo-rectangles (one handler invocation each) *)
+
+Definition DESKTOPSIZE_ENC : bytes := [255; 255; 255; 33].   (* -223 *)
+Definition LASTRECT_ENC : bytes := [255; 255; 255; 32].      (* -224 *)
+Definition QEMU_KEY_ENC : bytes := [255; 255; 254; 254].     (* -258 *)
+
+(** DesktopSize (7.8.2): width and height of the rectangle become the framebuffer size, exactly one
+    updateDesktopSize(w, h); the rectangle counts as one of the update's rectangles *)
+Theorem desktopsize_roundtrip s x y w h tail s2 p2 es2 es r n :
+  u16ok x -> u16ok y -> u16ok w -> u16ok h -> rects s <> 0 ->
+  let s1 := enter_rect s x y w h <| width := w |> <| height := h |> in
+  do_connection s1 = Ok s2 (Some p2) es2 ->
+  Drain s2 p2 tail es r n ->
+  Drain s PRect (rect_hdr x y w h DESKTOPSIZE_ENC ++ tail) ([EDesktopSize w h] ++ es2 ++ es) r (S n).
+Proof.
+  intros Hx Hy Hw Hh Hr s1 Hd HD. subst s1.
+  destruct (rect_hdr_unpack x y w h DESKTOPSIZE_ENC tail Hx Hy Hw Hh eq_refl) as [Ht Hun].
+  rewrite (app_assoc [EDesktopSize w h] es2 es).
+  eapply D_step; [exact Ht| |].
+  { cbn [step]. rewrite Hun. change (to_s32 (be_dec DESKTOPSIZE_ENC)) with (-223).
+  change (-223 =? ENC_PSEUDO_LAST_RECT) with false. cbv iota.
+  destruct (Z.eqb_spec (rects s) 0) as [E|_]; [contradiction|].
+  change (-223 =? ENC_COPY_RECTANGLE) with false. change (-223 =? ENC_RAW) with false.
+  change (-223 =? ENC_HEXTILE) with false. change (-223 =? ENC_CORRE) with false. change (-223 =? ENC_RRE) with false.
+  change (-223 =? ENC_ZRLE) with false. change (-223 =? ENC_PSEUDO_CURSOR) with false.
+  change (-223 =? ENC_PSEUDO_DESKTOP_SIZE) with true. cbv iota.
+  fold (enter_rect s x y w h). rewrite Hd. reflexivity. }
+  cbn [next_pend]. exact HD.
+Qed.
+
+(** LastRect (7.8.? / TightVNC): whatever the announced count, the update ends here; the marker itself
+    is not one of the update's rectangles *)
+Theorem lastrect_roundtrip s x y w h tail s2 p2 es2 es r n :
+  u16ok x -> u16ok y -> u16ok w -> u16ok h ->
+  do_connection (s <| rects := 0 |>) = Ok s2 (Some p2) es2 ->
+  Drain s2 p2 tail es r n ->
+  Drain s PRect (rect_hdr x y w h LASTRECT_ENC ++ tail) (es2 ++ es) r (S n).
+Proof.
+  intros Hx Hy Hw Hh Hd HD.
+  destruct (rect_hdr_unpack x y w h LASTRECT_ENC tail Hx Hy Hw Hh eq_refl) as [Ht Hun].
+  match goal with |- Drain _ _ _ ?E _ _ => change E with (es2 ++ es) end.
+  eapply D_step; [exact Ht| |].
+  { cbn [step]. rewrite Hun. change (to_s32 (be_dec LASTRECT_ENC)) with (-224).
+  change (-224 =? ENC_PSEUDO_LAST_RECT) with true. cbv iota.
+  change (rects (s <| rects := 0 |>) =? 0) with true. cbv iota. exact Hd. }
+  cbn [next_pend]. exact HD.
+Qed.
+
+(** QEMU extended key event pseudo-encoding: the server accepts extended key events from now on; the
+    marker is not one of the update's rectangles *)
+Theorem qemu_key_roundtrip s x y w h tail s2 p2 es2 es r n :
+  u16ok x -> u16ok y -> u16ok w -> u16ok h -> rects s <> 0 ->
+  let s1 := enter_rect s x y w h in
+  do_connection (s1 <| qemu_neg := true |> <| rectpos := removelast (rectpos s1) |>) = Ok s2 (Some p2) es2 ->
+  Drain s2 p2 tail es r n ->
+  Drain s PRect (rect_hdr x y w h QEMU_KEY_ENC ++ tail) (es2 ++ es) r (S n).
+Proof.
+  intros Hx Hy Hw Hh Hr s1 Hd HD. subst s1.
+  destruct (rect_hdr_unpack x y w h QEMU_KEY_ENC tail Hx Hy Hw Hh eq_refl) as [Ht Hun].
+  eapply D_step; [exact Ht| |].
+  { cbn [step]. rewrite Hun. change (to_s32 (be_dec QEMU_KEY_ENC)) with (-258).
+  change (-258 =? ENC_PSEUDO_LAST_RECT) with false. cbv iota.
+  destruct (Z.eqb_spec (rects s) 0) as [E|_]; [contradiction|].
+  change (-258 =? ENC_COPY_RECTANGLE) with false. change (-258 =? ENC_RAW) with false.
+  change (-258 =? ENC_HEXTILE) with false. change (-258 =? ENC_CORRE) with false. change (-258 =? ENC_RRE) with false.
+  change (-258 =? ENC_ZRLE) with false. change (-258 =? ENC_PSEUDO_CURSOR) with false.
+  change (-258 =? ENC_PSEUDO_DESKTOP_SIZE) with false. change (-258 =? ENC_PSEUDO_QEMU_EXTENDED_KEY_EVENT) with true. cbv iota.
+  fold (enter_rect s x y w h). exact Hd. }
+  cbn [next_pend]. exact HD.
+Qed.
